@@ -765,11 +765,36 @@ class Condition(ConditionLike):
                 f"{self.callable.kwargs!r} cannot be written in JSON form."
             )
 
+        # data-path arguments are written as path specs, and literal mappings that
+        # `from_spec` would read as (escaped) path specs are escaped; like `from_spec`,
+        # this looks at the argument itself and at the items of a list/mapping argument:
+        json_like_val = self._arg_to_json_like(spec_val)
+        if json_like_val is spec_val:
+            if isinstance(spec_val, dict):
+                spec_val = {k: self._arg_to_json_like(v) for k, v in spec_val.items()}
+            elif isinstance(spec_val, list):
+                spec_val = [self._arg_to_json_like(i) for i in spec_val]
+        else:
+            spec_val = json_like_val
+
         out = {key: spec_val}
         if "shared_data" in kwargs:
             return out, kwargs["shared_data"]
         else:
             return out
+
+    @staticmethod
+    def _arg_to_json_like(arg):
+        if isinstance(arg, valida.datapath.DataPath):
+            return arg.to_spec()
+        elif isinstance(arg, dict) and any(
+            isinstance(k, str) and "path" in k for k in arg
+        ):
+            return {
+                (k.replace("path", r"\path") if isinstance(k, str) else k): v
+                for k, v in arg.items()
+            }
+        return arg
 
 
 class FilterDatumType(enum.Enum):
